@@ -26,7 +26,11 @@ Becomes(new) == st' = new /\ Ev.state = new
 Refs(ev) == [q \in DOMAIN ev.refs |-> <<ev.refs[q][1], ev.refs[q][2]>>]
 
 \* the closure that writes the replacement body is handed the parameters of the function being made
-HandedParams == "handed" \in DOMAIN Ev.ret => Ev.ret.handed = Ev.ret.params
+\* ... and, in the binary, the new body reads its parameters from the parameter slots and its scratch local from another one
+HandedParams == "handed" \in DOMAIN Ev.ret =>
+                   /\ Ev.ret.handed = Ev.ret.params
+                   /\ (Ev.ret.trial => /\ Ev.ret.reads = [q \in 1..Len(Ev.ret.params) |-> q - 1]
+                                        /\ Ev.ret.scratch >= Len(Ev.ret.params))
 
 TReplaceImported ==
   /\ IsEvent("replace_imported") /\ HandedParams
